@@ -341,7 +341,9 @@ Lemma rebuild_sbs c t p b s :
 Proof.
   unfold rebuild_for_upstream. rewrite !del_header_sbs. destruct t; cbn [fst snd].
   - rewrite build_sbs. reflexivity.
-  - rewrite add_header_sbs, build_sbs. reflexivity.
+  - change (via_for c (set_buffer_size (del_header (del_header p PROXY_AUTHORIZATION) PROXY_CONNECTION) b s))
+      with (via_for c (del_header (del_header p PROXY_AUTHORIZATION) PROXY_CONNECTION)).
+    rewrite add_header_sbs, build_sbs. reflexivity.
 Qed.
 
 Lemma hhas_del_false p k u : hhas p u = false -> hhas (del_header p k) u = false.
@@ -572,7 +574,7 @@ Section Forward.
     unfold proxy_round, pstate. cbn [upstream conn_closed conns nth_error up_closed request pipeline_request].
     rewrite Hc, Ht. cbn [negb andb].
     destruct po as [pr|]; [|reflexivity].
-    rewrite (upgrade_false pr (NU pr eq_refl)). reflexivity.
+    rewrite (upgrade_false pr (NU pr eq_refl)), andb_false_r. reflexivity.
   Qed.
 
   Lemma fwd_oc_spec s m tail : G_proxy s -> fwd_okm m -> no_upgrade m ->
